@@ -136,6 +136,18 @@ class BuiltWorld:
 
                 self.ns[key] = class_check(pred)
             return key
+        if k == "depchk":
+            # value-dependent type whose bound is another (hook-defined) type; the value check always holds
+            inner = self.type_expr(t["inner"])
+            key = "DEPB_" + "".join(ch if ch.isalnum() else "_" for ch in inner)
+            if key not in self.ns:
+                from ovld import Dependent
+
+                def always(value):
+                    return True
+
+                self.ns[key] = Dependent[eval(inner, self.ns), always]
+            return key
         if k == "raw":
             return t["expr"]
         raise ValueError(f"unknown type term {t}")
